@@ -39,6 +39,19 @@ var crashOps = []crashOp{
 	{name: "delete", family: "del", initPresent: true},
 	{name: "part-new", family: "part", part: true},
 	{name: "part-over", family: "part", part: true, initPresent: true},
+	// versioned bucket: the register is the key's whole version stack
+	{name: "vput-over", family: "put", initPresent: true, versioned: true},
+	{name: "vdelete-marker", family: "del", initPresent: true, versioned: true},
+	{name: "vdelete-latest", family: "del", initPresent: true, versioned: true},
+	{name: "vdelete-old", family: "del", initPresent: true, versioned: true},
+}
+
+// versioned operations: stack before (newest first) and after, as stack ids
+var vStacks = map[string][2]string{
+	"vput-over":      {"w0", "w1|w0"},
+	"vdelete-marker": {"w0", "M|w0"},
+	"vdelete-latest": {"w1|w0", "w0"},
+	"vdelete-old":    {"w1|w0", "w1"},
 }
 
 type crashWorld struct {
@@ -48,12 +61,13 @@ type crashWorld struct {
 	bucket string
 	key    string
 	uid    string // multipart upload id when one is open
+	vids   []string // version ids created during setup, oldest first
 	etagOf map[string]string
 	sizeOf map[int]string
 }
 
 func newCrashWorld(c *core.Ctx, k pkConfig, op crashOp) (*crashWorld, error) {
-	env, err := NewEnv(c, false, k.Meta == "sidecar", func(g *gw.Config) { g.NoTmp = k.Strategy == "named" })
+	env, err := NewEnv(c, op.versioned, k.Meta == "sidecar", func(g *gw.Config) { g.NoTmp = k.Strategy == "named" })
 	if err != nil {
 		return nil, err
 	}
@@ -80,7 +94,19 @@ func newCrashWorld(c *core.Ctx, k pkConfig, op crashOp) (*crashWorld, error) {
 		env.Close()
 		return nil, fmt.Errorf("setup %s: %v", what, r)
 	}
-	if op.initPresent && !op.part {
+	if op.versioned {
+		if r := PutVersioning(cl, w.bucket, "Enabled"); !r.OK() {
+			return fail("enable versioning", r)
+		}
+		for _, wid := range strings.Split(reverseStack(vStacks[op.name][0]), "|") {
+			r := PutObject(cl, w.bucket, w.key, pkContent(wid), hdr(wid, false)...)
+			if !r.OK() {
+				return fail("init version", r)
+			}
+			w.vids = append(w.vids, r.Header.Get("X-Amz-Version-Id"))
+			time.Sleep(3 * time.Millisecond)
+		}
+	} else if op.initPresent && !op.part {
 		if r := PutObject(cl, w.bucket, w.key, pkContent("w0"), hdr("w0", op.tagged)...); !r.OK() {
 			return fail("init object", r)
 		}
@@ -127,6 +153,10 @@ func (w *crashWorld) run(op crashOp, cl *s3c.Client, label string) *s3c.Resp {
 		return cl.Do(s3c.Req{Method: "POST", Path: path, Query: []s3c.KV{{K: "uploadId", V: w.uid}}, Body: []byte(body), Label: label, Timeout: 8 * time.Second})
 	case op.part:
 		return cl.Do(s3c.Req{Method: "PUT", Path: path, Query: []s3c.KV{{K: "partNumber", V: "1"}, {K: "uploadId", V: w.uid}}, Body: pkContent("w1"), Label: label, Timeout: 8 * time.Second, Mode: s3c.UnsignedPayload})
+	case op.name == "vdelete-latest":
+		return cl.Do(s3c.Req{Method: "DELETE", Path: path, Query: []s3c.KV{{K: "versionId", V: w.vids[len(w.vids)-1]}}, Label: label, Timeout: 8 * time.Second})
+	case op.name == "vdelete-old":
+		return cl.Do(s3c.Req{Method: "DELETE", Path: path, Query: []s3c.KV{{K: "versionId", V: w.vids[0]}}, Label: label, Timeout: 8 * time.Second})
 	case op.family == "del":
 		return cl.Do(s3c.Req{Method: "DELETE", Path: path, Label: label, Timeout: 8 * time.Second})
 	default:
@@ -148,6 +178,9 @@ type partsResult struct {
 
 // observe reads the register (object key or part 1) after the restart.
 func (w *crashWorld) observe(op crashOp, cl *s3c.Client) linOp {
+	if op.versioned {
+		return w.observeStack(cl)
+	}
 	if op.part {
 		o := linOp{ID: "final", Op: "get", Arg: "none", Body: "none", Len: "none", Etag: "none", Meta: "none", Tags: "none", Full: true}
 		r := cl.Do(s3c.Req{Method: "GET", Path: "/" + w.bucket + "/" + w.key, Query: []s3c.KV{{K: "uploadId", V: w.uid}}})
@@ -175,6 +208,93 @@ func (w *crashWorld) observe(op crashOp, cl *s3c.Client) linOp {
 	}
 	pw := &pkWorld{c: w.c, bucket: w.bucket, key: w.key, etagOf: w.etagOf, sizeOf: w.sizeOf, cls: []*s3c.Client{cl}}
 	return pw.finalRead(op.tagged)
+}
+
+func reverseStack(s string) string {
+	p := strings.Split(s, "|")
+	for i, j := 0, len(p)-1; i < j; i, j = i+1, j-1 {
+		p[i], p[j] = p[j], p[i]
+	}
+	return strings.Join(p, "|")
+}
+
+// observeStack reads the key's version stack after the restart as a stack id
+// ("w1|w0", "M|w0", ...; newest first) -- "mixed" when the listing, the bytes of a
+// version or the current object do not form one consistent stack.
+func (w *crashWorld) observeStack(cl *s3c.Client) linOp {
+	o := linOp{ID: "final", Op: "get", Arg: "none", Body: "mixed", Len: "none", Etag: "none", Meta: "none", Tags: "none", Full: true, Res: "ok"}
+	lv, r := ListVersions(cl, w.bucket)
+	if !r.OK() {
+		o.Res, o.Note = "fail", r.String()
+		return o
+	}
+	type ent struct {
+		id     string
+		latest bool
+		vid    string
+	}
+	var ents []ent
+	pw := &pkWorld{c: w.c, bucket: w.bucket, key: w.key, etagOf: w.etagOf, sizeOf: w.sizeOf, cls: []*s3c.Client{cl}}
+	for _, v := range lv.Versions {
+		if v.Key != w.key {
+			o.Note = "foreign key in listing: " + v.Key
+			return o
+		}
+		wid, ok := w.etagOf[strings.Trim(v.ETag, "\"")]
+		if !ok {
+			wid = "?"
+		}
+		g := pw.observeGet(GetObjectVersion(cl, w.bucket, w.key, v.VersionId))
+		if g.Res != "ok" || g.Body != wid || g.Etag != wid || g.Len != wid || g.Meta != wid || !g.Full {
+			b, _ := json.Marshal(g)
+			o.Note = fmt.Sprintf("version %s listed as %s reads %s", v.VersionId, wid, b)
+			return o
+		}
+		ents = append(ents, ent{wid, v.IsLatest, v.VersionId})
+	}
+	for _, m := range lv.DeleteMarkers {
+		ents = append(ents, ent{"M", m.IsLatest, m.VersionId})
+	}
+	if len(ents) == 0 {
+		o.Res = "absent"
+		o.Body = "none"
+		return o
+	}
+	nl := 0
+	for _, e := range ents {
+		if e.latest {
+			nl++
+		}
+	}
+	if nl != 1 {
+		o.Note = fmt.Sprintf("%d entries flagged latest", nl)
+		return o
+	}
+	// newest first: the latest entry, then the others by descending version id (ULIDs sort by time)
+	sort.SliceStable(ents, func(i, j int) bool {
+		if ents[i].latest != ents[j].latest {
+			return ents[i].latest
+		}
+		return ents[i].vid > ents[j].vid
+	})
+	ids := []string{}
+	for _, e := range ents {
+		ids = append(ids, e.id)
+	}
+	// the current object must be the latest entry
+	cur := pw.observeGet(GetObject(cl, w.bucket, w.key))
+	if ents[0].id == "M" {
+		if cur.Res != "absent" {
+			o.Note = "latest is a delete marker but the key reads " + cur.Res
+			return o
+		}
+	} else if cur.Res != "ok" || cur.Body != ents[0].id || cur.Etag != ents[0].id || cur.Meta != ents[0].id || !cur.Full {
+		b, _ := json.Marshal(cur)
+		o.Note = "current object is not the latest version: " + string(b)
+		return o
+	}
+	o.Body = strings.Join(ids, "|")
+	return o
 }
 
 type hookHit struct {
@@ -226,6 +346,11 @@ var phaseOf = map[string]string{
 	"link.linked": "published", "link.renamed": "published", "put.linked": "published", "cmp.linked": "published", "part.linked": "published",
 	"put.tags_done": "post-steps", "put.hold_done": "post-steps", "put.done": "post-steps", "cmp.cleaned": "post-steps",
 	"del.begin": "before-first-step", "del.stat": "before-first-step", "del.removed": "name-removed", "del.attrs_removed": "attrs-removed",
+	// versioned operations: the current version is first copied into the versioning directory
+	"ver.copied": "version-copy-in-progress", "ver.attrs_done": "version-copy-in-progress", "ver.linked": "version-copied",
+	"put.versioned": "version-copied", "del.versioned": "version-copied", "del.marker_set": "marker-set", "del.vid_set": "marker-set",
+	"delv.begin": "before-first-step", "delv.removed": "current-removed", "delv.linked": "previous-promoted",
+	"delv.attrs_done": "previous-promoted", "delv.src_removed": "post-steps", "delv.old_begin": "before-first-step",
 }
 
 func C11(c *core.Ctx, replay string) {
@@ -307,7 +432,12 @@ func C11(c *core.Ctx, replay string) {
 			}
 			c.Logf("%v %s: %d kill points: %s", k, op.name, len(hits)+1, strings.Join(sites, " "))
 			// one real kill per hit, plus one after the acknowledgement
-			for i := 0; i <= len(hits); i++ {
+			baseline := map[string]bool{} // follow-up failures of the crash-free run (not crash leftovers)
+			order := []int{len(hits)}
+			for i := 0; i < len(hits); i++ {
+				order = append(order, i)
+			}
+			for _, i := range order {
 				cc := crashCase{Config: k.String(), Op: op.name, Hit: i}
 				if i == len(hits) {
 					cc.Hit, cc.Site, cc.Window = -1, "after-ack", "after-ack"
@@ -316,6 +446,10 @@ func C11(c *core.Ctx, replay string) {
 					cc.Window = "before-first-step"
 					for j := 0; j <= i; j++ {
 						if ph, ok := phaseOf[hits[j].Site]; ok {
+							// link.* sites also occur inside the version copy: they do not end that phase
+							if cc.Window == "version-copy-in-progress" && strings.HasPrefix(hits[j].Site, "link.") {
+								continue
+							}
 							cc.Window = ph
 						}
 					}
@@ -323,7 +457,7 @@ func C11(c *core.Ctx, replay string) {
 				if only != nil && only.Hit != cc.Hit {
 					continue
 				}
-				line, err := w.killCase(c, k, op, hits, cc)
+				line, err := w.killCase(c, k, op, hits, cc, baseline)
 				if err != nil {
 					c.Inconclusive("%v %s kill@%d %s: %v", k, op.name, i, cc.Site, err)
 					return
@@ -378,7 +512,7 @@ func C11(c *core.Ctx, replay string) {
 
 // killCase sets up a fresh storage, kills a real gateway at the given hook
 // hit of the operation, restarts it and reads the state back.
-func (w0 *crashWorld) killCase(c *core.Ctx, k pkConfig, op crashOp, hits []hookHit, cc crashCase) (*crashLine, error) {
+func (w0 *crashWorld) killCase(c *core.Ctx, k pkConfig, op crashOp, hits []hookHit, cc crashCase, baseline map[string]bool) (*crashLine, error) {
 	w, err := newCrashWorld(c, k, op)
 	if err != nil {
 		return nil, err
@@ -437,6 +571,11 @@ func (w0 *crashWorld) killCase(c *core.Ctx, k pkConfig, op crashOp, hits []hookH
 	if op.family == "del" {
 		o.Op, o.Arg = "del", "none"
 	}
+	if op.versioned {
+		// the register is the whole stack: the operation "writes" the stack after it
+		line.Init = vStacks[op.name][0]
+		o.Op, o.Arg = "put", vStacks[op.name][1]
+	}
 	if acked {
 		o.Res = "ok"
 	}
@@ -464,6 +603,13 @@ func (w0 *crashWorld) killCase(c *core.Ctx, k pkConfig, op crashOp, hits []hookH
 	}
 	// TempHarmless: later operations on the key and the bucket work
 	harm := func(what string, r *s3c.Resp) {
+		if cc.Hit == -1 {
+			baseline[what] = true // happens without any crash: not a leftover (other properties' business)
+			return
+		}
+		if baseline[what] {
+			return
+		}
 		c.Violation(core.FP("C11", "temp-harmful", what, strings.SplitN(op.name, "-", 2)[0], cc.Window, k.Meta),
 			fmt.Sprintf("%s (%s) killed at %s: later %s answers %v", op.name, k, cc.Site, what, r), line)
 	}
@@ -474,14 +620,27 @@ func (w0 *crashWorld) killCase(c *core.Ctx, k pkConfig, op crashOp, hits []hookH
 		g := pw.observeGet(GetObject(cl2, w.bucket, w.key))
 		if g.Res != "ok" || g.Body != "w2" || g.Len != "w2" || g.Etag != "w2" || g.Meta != "w2" || !g.Full {
 			b, _ := json.Marshal(g)
-			c.Violation(core.FP("C11", "temp-harmful", "get-after-put", strings.SplitN(op.name, "-", 2)[0], cc.Window, k.Meta),
-				fmt.Sprintf("%s (%s) killed at %s: GET after a fresh PUT returns %s", op.name, k, cc.Site, b), line)
+			if cc.Hit == -1 {
+				baseline["get-after-put"] = true
+			}
+			if !baseline["get-after-put"] {
+				c.Violation(core.FP("C11", "temp-harmful", "get-after-put", strings.SplitN(op.name, "-", 2)[0], cc.Window, k.Meta),
+					fmt.Sprintf("%s (%s) killed at %s: GET after a fresh PUT returns %s", op.name, k, cc.Site, b), line)
+			}
 		}
 	}
 	if r := DeleteObject(cl2, w.bucket, w.key); r.Err != nil || r.Status >= 300 {
 		harm("delete", r)
 	}
 	DeleteObject(cl2, w.bucket, "src")
+	if op.versioned {
+		// a versioned bucket is empty only when every version and marker is gone
+		if lv, r := ListVersions(cl2, w.bucket); r.OK() {
+			for _, v := range append(lv.Versions, lv.DeleteMarkers...) {
+				DeleteObjectVersion(cl2, w.bucket, v.Key, v.VersionId)
+			}
+		}
+	}
 	if w.uid != "" {
 		AbortMPU(cl2, w.bucket, w.key, w.uid) // may already be gone (completed)
 	}
